@@ -7,7 +7,10 @@ use hpo::HpoTermId;
 use std::collections::HashSet;
 
 #[derive(Default)]
-pub struct Ext {}
+pub struct Ext {
+    /// decoded records accumulated by the `f*` ops
+    pub facts: crate::enc::RawFacts,
+}
 
 pub fn exec(it: &mut Interp, toks: &[&str], out: &mut Vec<String>) -> bool {
     group_ops(it, toks, out) || termid_ops(it, toks, out) || crate::ext2::exec(it, toks, out)
